@@ -498,6 +498,12 @@ def check(ax, case, rec):
             rec.require("linsteps-axis-shape", got2.shape == ref2.shape, str(got2.shape))
             if got2.shape == ref2.shape:
                 rec.close("linsteps-axis", maxdiff(got2, ref2), 1e-12)
+            if (flag >> 3) % 2 == 0 or case["seed"] % 3 == 0:
+                # without `axes`: as many columns as needed to hold column `axis`; scalar default values (0)
+                got3 = fm.linsteps(pts, num=num, endpoint=endpoint, axis=axis)
+                ref3 = np.zeros((len(ref), axis + 1))
+                ref3[:, axis] = ref
+                rec.close("linsteps-axis-without-axes", maxdiff(got3, ref3) if got3.shape == ref3.shape else float("inf"), 1e-12, str(got3.shape))
     else:
         raise KeyError(ax)
 
